@@ -10,6 +10,7 @@ from __future__ import annotations
 
 import math
 import os
+import time
 import sys
 
 import numpy as np
@@ -512,6 +513,16 @@ def run_layer(case, rec):
     # *its* settings (nothing remembered from the request before)
     seqp = [p for p in info.parameters.call_parameters if p.polydisperse and p.relative_pd and np.isfinite(p.default)
             and p.default > 0 and p.limits[0] <= 0 and not np.isfinite(p.limits[1])][:2]
+    helper_cost = {"Iq": 1.0}
+    if seqp:
+        # what forty unsmeared points of this model cost once its library is loaded
+        try:
+            direct_model.Iq(name, np.array([0.01, 0.1]))
+            t_h = time.perf_counter()
+            direct_model.Iq(name, np.linspace(0.01, 0.2, 400))
+            helper_cost["Iq"] = (time.perf_counter() - t_h)/10.0
+        except Exception:
+            rec.count("helper_entry_raised")
     for p in seqp:
         v0 = float(p.default)
         cur = {"type": "gaussian", "n": 9, "width": 0.12, "nsig": 2.0, "value": v0}
@@ -565,7 +576,41 @@ def run_layer(case, rec):
                 _, pts3, wts3 = direct_model.get_mesh(info, bm.state(), dim="1d")[idx]
             finally:
                 _state["current"] = None
-            for via, a, b in (("get_mesh", pts, wts), ("SasviewModel", pts2, wts2), ("bumps Model.state()", pts3, wts3)):
+            vias = [("get_mesh", pts, wts), ("SasviewModel", pts2, wts2), ("bumps Model.state()", pts3, wts3)]
+            # the one-call helpers Iq / Iqxy / Gxi: the mesh their calculator builds from the keywords as given
+            if ("nsig" in st_ or "n" in st_ or "type" in st_) and helper_cost["Iq"] < 0.004:
+                # (only on models that answer quickly: the spin-echo transform asks for thousands of points)
+                helper = ("Iq", "Iqxy", "Gxi")[(len(vias) + steps.index(st_)) % 3]
+                seen_ = []
+                orig_gm = direct_model.get_mesh
+
+                def spy_gm(model_info, values, dim='1d', mono=False, _o=orig_gm, _s=seen_):
+                    out = _o(model_info, values, dim=dim, mono=mono)
+                    _s.append(out)
+                    return out
+                direct_model.get_mesh = spy_gm
+                _state["current"] = rec
+                try:
+                    if helper == "Iq":
+                        direct_model.Iq(name, np.array([0.01, 0.1]), **pars)
+                    elif helper == "Iqxy":
+                        direct_model.Iqxy(name, np.array([0.01, 0.05]), np.array([0.02, -0.03]), **pars)
+                    else:
+                        direct_model.Gxi(name, np.array([100.0, 1000.0]), **pars)
+                except Exception as exc:
+                    rec.count("helper_entry_raised")
+                    seen_.append(None)
+                    rec.observe(helper_exception=repr(exc)[:200])
+                finally:
+                    _state["current"] = None
+                    direct_model.get_mesh = orig_gm
+                if seen_ and seen_[-1] is not None:
+                    _, ptsh, wtsh = seen_[-1][idx]
+                    vias.append(("direct_model.%s keywords" % helper, ptsh, wtsh))
+                    rec.bucket("layer:helper-" + helper)
+                elif not seen_:
+                    rec.inconclusive("the mesh built by direct_model.%s for %s was not observed" % (helper, name))
+            for via, a, b in vias:
                 ok = np.array_equal(np.asarray(a), exp_v) and np.array_equal(np.asarray(b), exp_w)
                 rec.check("mesh_is_get_weights_for_this_parameter", ok,
                           None if ok else {"model": name, "parameter": p.name, "via": via + " after a request differing in " +
